@@ -73,6 +73,7 @@ def run(chk, driver, tier):
     chk.extra["rule"] = ("PEP 440-shaped patterns (README examples and grammar patterns: optional v, dot-separated or adjacent fixed-width numeric parts, optional tag tail) x all part "
                          "values and tags (NUM present or absent); odd shapes as a separate stream (known finding region); non-trivial = distinct (pattern, version)")
     ops = []
+    tie_ops = []
     for _ in range(n):
         vp = gen_shaped(rng)
         tree = refimpl.tokenize(vp)
@@ -90,6 +91,8 @@ def run(chk, driver, tier):
         chk.oracle_case({"vp": vp, "state": {k: v for k, v in st.items()}}, verdict)
         ops.append({"op": "to_pep440_pattern", "version_pattern": vp})
         ops.append({"op": "normalize", "version_pattern": vp, "raw_pattern": 'x = "{pep440_version}" / {version}'})
+        if len(tie_ops) < n // 2:
+            tie_ops.append({"op": "pep_tie", "pattern": vp, "vinfo": projgen.vinfo_of_state(st), "today": [2026, 9, 29]})
     for vp in README_PATTERNS + gen.MALFORMED:
         ops.append({"op": "to_pep440_pattern", "version_pattern": vp})
 
@@ -98,6 +101,26 @@ def run(chk, driver, tier):
             return impl.to_pep440_pattern(o["version_pattern"])
         return impl.normalize(o["version_pattern"], o["raw_pattern"])
     chk.correspond(ops, f, driver)
+    # model-internal tie: the TREE-level conversion (Model/PepTree.lean, where C15_derived_accepts_* and C15_normal_form_parts live) against
+    # the string surgery (the faithful model of _convert_to_pep440), per generated pattern; how many (pattern, record) pairs lie inside the
+    # theorems' domain; and the theorem's conclusion evaluated on each of those (a test of the statement, not part of the proof)
+    for o, got in zip(tie_ops, driver.run(tie_ops)):
+        chk.evaluations += 1
+        if not got.get("tokenized"):
+            chk.count("pep_tree:not_tokenized")
+            continue
+        if not (got.get("tie") and got.get("render_eq")):
+            # the trees differ only where deleting a separator fuses two names (YY-YY -> YYYY); for PEP 440-shaped patterns this must not happen
+            chk.disagreements.append({"op": o, "impl": {"tie": True, "render_eq": True}, "model": got})
+            continue
+        chk.count("agree:pep_tie")
+        chk.count("pep_tree:normal" if got.get("normal") else "pep_tree:not_normal")
+        if got.get("in_domain"):
+            chk.count("pep_tree:in_theorem_domain")
+            if not got.get("theorem_instance"):
+                chk.disagreements.append({"op": o, "impl": "C15_derived_accepts_of_original holds on this instance", "model": got})
+        else:
+            chk.count("pep_tree:outside_theorem_domain")
     # the odd shapes (known finding F-C15-odd-shapes): replay the recorded witnesses
     lines = []
     if "F-C15-odd-shapes" in known:
